@@ -213,3 +213,56 @@ theorem normalizeCrossCoef_value_N (c : CrossCtx bits ab rb rs lsh H a) (off : I
 end
 
 end NormL
+
+namespace NormL
+
+theorem CrossCtx.with_lsh {bits ab rb rs lsh l' : Nat} {H : Int} {a : List Int}
+    (c : CrossCtx bits ab rb rs lsh H a) (h : l' < ab) : CrossCtx bits ab rb rs l' H a :=
+  { c with hlsh := h }
+
+/-- **value theorem of the cross-radix `vec_znx_normalize` / `vec_znx_big_normalize`, every offset**:
+`rs` limbs with `|d| ≤ 2^rb − 1`, representing `a·2^off` on the torus within one unit of the last
+limb; exact when the shifted input needs no more bits than the result has, counted in whole limbs of
+`a` (`ab·a_size ≤ rb·rs + limbs_offset·ab`). -/
+theorem normalizeCrossCoef_value {bits ab rb rs : Nat} {H : Int} {a : List Int}
+    (c : CrossCtx bits ab rb rs 0 H a) (off : Int) {out : List Int}
+    (h : normalizeCrossCoef bits rb rs off ab a = some out) :
+    out.length = rs ∧ (∀ d ∈ out, |d| ≤ 2 ^ rb - 1) ∧
+    TorusNear (valI rb out) (rb * rs) (valI ab a * 2 ^ off.toNat) (ab * a.length + (-off).toNat) ∧
+    (((ab * a.length : Nat) : Int) ≤ ((rb * rs : Nat) : Int) + (splitOffset ab off).2 * ab →
+      TorusEq (valI rb out) (rb * rs) (valI ab a * 2 ^ off.toNat) (ab * a.length + (-off).toNat)) := by
+  have hab1 : 1 ≤ ab := by have := c.hlsh; omega
+  obtain ⟨hoff, hl⟩ := splitOffset_spec hab1 off
+  generalize hso : splitOffset ab off = so at hoff hl ⊢
+  obtain ⟨lsh, lo⟩ := so
+  simp only at hoff hl ⊢
+  have cl := c.with_lsh hl
+  rcases le_or_gt 0 lo with hlo | hlo
+  · obtain ⟨L, rfl⟩ := Int.eq_ofNat_of_zero_le hlo
+    have hLab : (L : Int) * (ab : Int) = ((L * ab : Nat) : Int) := by push_cast; ring
+    have e1 : off.toNat = L * ab + lsh := by omega
+    have e2 : (-off).toNat = 0 := by omega
+    obtain ⟨h1, h2, h3, h4⟩ := normalizeCrossCoef_value_P cl off L hso h
+    rw [e1, e2, Nat.add_zero]
+    refine ⟨h1, h2, h3, fun hle => h4 ?_⟩
+    rw [hLab] at hle
+    exact_mod_cast hle
+  · obtain ⟨Ln, rfl⟩ := Int.exists_eq_neg_ofNat (le_of_lt hlo)
+    have hLn1 : 1 ≤ Ln := by omega
+    have hLab : (Ln : Int) * (ab : Int) = ((Ln * ab : Nat) : Int) := by push_cast; ring
+    have hbl : lsh ≤ Ln * ab := by
+      have : ab * 1 ≤ ab * Ln := Nat.mul_le_mul_left ab hLn1
+      have : ab * Ln = Ln * ab := Nat.mul_comm _ _
+      omega
+    have hoff' : off = -((Ln * ab : Nat) : Int) + lsh := by rw [hoff]; push_cast; ring
+    have e1 : off.toNat = 0 := by omega
+    have e2 : (-off).toNat = Ln * ab - lsh := by omega
+    obtain ⟨h1, h2, h3, h4⟩ := normalizeCrossCoef_value_N cl off Ln (Ln * ab - lsh) hLn1 hso (by omega) h
+    rw [e1, e2, pow_zero, mul_one]
+    refine ⟨h1, h2, h3, fun hle => h4 ?_⟩
+    have : -(Ln : Int) * (ab : Int) = -((Ln * ab : Nat) : Int) := by push_cast; ring
+    rw [this] at hle
+    have h5 : ((ab * a.length : Nat) : Int) + ((Ln * ab : Nat) : Int) ≤ ((rb * rs : Nat) : Int) := by linarith
+    exact_mod_cast h5
+
+end NormL
